@@ -19,7 +19,7 @@ def roleOf : String → Option Role
   | "plain" => some .plain | "deco" => some .deco | "tparam" => some .tparam | "args" => some .args
   | "returns" => some .returns | "body" => some .body | "argr" => some .argr | "dflt" => some .dflt
   | "ann" => some .ann | "bound" => some .bound | "base" => some .base | "kw" => some .kw | "elt" => some .elt
-  | "gen" => some .gen | "target" => some .target | "iter" => some .iter | "cond" => some .cond
+  | "gen0" => some .gen0 | "gen" => some .gen | "target" => some .target | "iter" => some .iter | "cond" => some .cond
   | "wtarget" => some .wtarget
   | _ => none
 
@@ -44,6 +44,8 @@ def scopeJson (r : Node) : Json :=
   Json.mkObj [("id", ofNat r.id),
               ("walk", ids (walkRoot false r)),
               ("walk_sym", ids (walkRoot true r)),
+              ("walk_back", ids (walkRootB false r)),
+              ("walk_sym_back", ids (walkRootB true r)),
               ("syms", symsJson (symbols r)),
               ("owned", ids (owned r)),
               ("owned_walk", ids (ownedWalk r)),
